@@ -117,6 +117,7 @@ def run(tier):
         chk.clause('C15.droprow', 'ilu_?drop_row moves values and subscripts of a row together')
         for p in _drv.PRECS:
             misc.drop_row_alignment(chk, 'C15.droprow', prog, p, cfgname)
+            misc.hole_fill_rule(chk, 'C15.droprow', prog, p, cfgname)
         if k < 9:
             raise AnalysisBroken('C15: %d loops up to relax_end[] found, floor 9' % k)
         if cfgname == 'tested':
